@@ -1,7 +1,7 @@
 SPECIFICATION Spec
 CONSTANTS
-  Circuits = {"p1", "p2u", "pub2", "c1s", "c1p", "c1po", "c2", "c2i", "c3", "c3r", "p1x0", "p1x1", "p1x2", "p1x3", "p1x4", "p1x5", "p1x6", "p1x7", "arith", "hint", "lookup", "lookup2", "range", "commit", "emul", "defer", "mimc", "logs", "selector", "hintlazy"}
-  Commits = {"c1s", "c1p", "c1po", "c2", "c2i", "c3", "c3r", "lookup", "lookup2", "range", "commit", "emul", "defer"}
+  Circuits = {"p1", "p2u", "pub2", "c1s", "c1p", "c1po", "c2", "c2i", "c3", "c3r", "c4b", "p1x0", "p1x1", "p1x2", "p1x3", "p1x4", "p1x5", "p1x6", "p1x7", "arith", "hint", "lookup", "lookup2", "range", "commit", "emul", "defer", "mimc", "logs", "selector", "hintlazy"}
+  Commits = {"c4b", "c1s", "c1p", "c1po", "c2", "c2i", "c3", "c3r", "lookup", "lookup2", "range", "commit", "emul", "defer"}
   Emit = TRUE
 INVARIANT Honest
 CHECK_DEADLOCK FALSE
